@@ -60,6 +60,9 @@ TABLE = [
     (("C17",), "jxl_jbr::reconstruct::JpegBitstreamReconstructor::<'_, '_, '_>::process_next", "reads", "do_ycbcr", "seed-C17f",
      "which frame channel holds a JPEG component's quantisation table depends on the colour model: Y,Cb,Cr are stored as channels "
      "1,0,2, R,G,B as 0,1,2 - the DQT writer has to look at do_ycbcr (a seeded change made the swap unconditional)"),
+    (("C10",), "jxl_oxide::aux_box::AuxBoxList::handle_event", "calls", "AuxBoxReader::ensure_raw", "seed-C10g",
+     "an uncompressed auxiliary box leaves the Init state at its start: a box without payload gets no data event, and finalize() turns a "
+     "reader still in Init into NoData, so its type and (empty) payload would be lost"),
     (("C06",), "jxl_render::modular::compute_modular_region", "calls", "::has_palette", "seed-C06e",
      "any Palette transform forces a full-frame Modular decode: implicit delta entries (negative indices) are predicted from neighbours "
      "across group borders even when nb_deltas = 0 (confirmed by reading Palette::inverse_inner; a seeded change narrowed this to delta palettes)"),
